@@ -746,6 +746,8 @@ def list_edit(draw, spec, mutators=True, noops=True):
         ed = dict(op="listop", obj=n, attr=a, method=m, args=args)
         if m in ("extend", "iadd") and arg_as != "list":
             ed["arg_as"] = arg_as
+        elif m in ("append", "insert", "setitem", "extend", "iadd") and draw(st.floats(0, 1)) < 0.3:
+            ed["arg_as"] = "own"       # elements that are already in the list are passed as taken from it
     if not _keeps_profile(spec, E.apply_spec(spec, ed)):
         return draw(quantity_edit(spec))
     return ed
